@@ -114,6 +114,22 @@ class Poly(object):
             rem = rem - term * d
         return None
 
+    def diff(self, atom):
+        """partial derivative with respect to an atom"""
+        r = {}
+        for k, v in self.t.items():
+            d = dict(k)
+            e = d.get(atom, 0)
+            if e == 0:
+                continue
+            if e == 1:
+                del d[atom]
+            else:
+                d[atom] = e - 1
+            kk = tuple(sorted(d.items()))
+            r[kk] = r.get(kk, 0) + v * e
+        return Poly(r)
+
     def without(self, atom):
         return Poly({k: v for k, v in self.t.items() if atom not in dict(k)})
 
